@@ -54,4 +54,13 @@ def mLine (toks : List String) : String :=
     | .error e => "e:" ++ e.tag
   | _ => "bad-request"
 
+/-- `linescan <src>` — the line tables `StateBlock.__init__` builds (source already normalised): per line
+    `len,tShift,sCount,bsCount,hasLF` -/
+def lineScanLine (toks : List String) : String :=
+  match toks with
+  | [src] =>
+    let ls := scanGo (decChars src) [] false 0 0
+    "ok " ++ " ".intercalate (ls.map (fun l => s!"{l.text.length},{l.tShift},{l.sCount},{l.bs},{encBool l.hasLF}"))
+  | _ => "bad-request"
+
 end MdIt.Drv
